@@ -409,10 +409,14 @@ func c09Generate(t *sim.Tape) *c09Plan {
 			}
 			ops = append(ops, op)
 		}
+		if t.Chance("final_eval", 1, 2) {
+			// half of the workers finish by evaluating the whole battery of functions and operators
+			ops = append(ops, c09Op{Kind: "eval"})
+		}
 		p.Scripts = append(p.Scripts, ops)
 		t.End()
 	}
-	p.Switch = []uint64{1, 2, 4, 16, 64}[t.Pick("switchden", 5)]
+	p.Switch = []uint64{1, 2, 4, 16, 64, 1, 1}[t.Pick("switchden", 7)]
 	p.SchedSeed = uint64(t.Pick("schedseed", 1<<30))
 	t.End()
 	return p
@@ -478,6 +482,7 @@ func c09RunWorker(p *c09Plan, sa flows.SessionAssets, env envs.Environment, w in
 	cj, _ := json.Marshal(p.Sc.ContactJSON(cs, 0))
 	var session flows.Session
 	for i, op := range p.Scripts[w] {
+		yield(6) // between operations
 		label := fmt.Sprintf("op%d/%s", i, op.Kind)
 		fu := assets.FlowUUID(p.FlowIDs[op.Flow])
 		switch op.Kind {
@@ -584,7 +589,15 @@ func c09RunWorker(p *c09Plan, sa flows.SessionAssets, env envs.Environment, w in
 				add(label, "no context")
 				continue
 			}
-			for _, tpl := range []string{"@contact", "@(json(contact))", "@(json(results))", "@fields", "@run", "@(json(run))", "@(has_text(input.text))", "@(has_any_word(\"yes\", \"yes no\"))", "@trigger.params", "@(json(trigger))", "@urns", "@globals", "@(1/0)", "@(object())", "@(parse_json(\"{}\"))"} {
+			// every function and operator the generator knows: whatever process-wide state they or their
+			// libraries keep is touched by several workers
+			battery := append([]string{"@contact", "@(json(contact))", "@(json(results))", "@fields", "@run", "@(json(run))", "@(has_text(input.text))", "@(has_any_word(\"yes\", \"yes no\"))", "@trigger.params", "@(json(trigger))", "@urns", "@globals", "@(1/0)", "@(object())", "@(parse_json(\"{}\"))",
+				"@(10 ^ -1.5)", "@(has_phone(\"0788 123 123\", \"RW\"))", "@(has_date(\"1/2/2020\"))", "@(has_number(\"1,000\"))", "@(has_email(\"x@y.com\"))", "@(has_pattern(\"abc\", \"(b)\"))", "@(regex_match(\"abc\", \"b+\"))", "@(format_datetime(now(), \"EEEE MMMM\"))"}, gen.ExprPool()...)
+			for _, tpl := range battery {
+				// a scheduling point of the harness between two evaluations: the race detector forgets
+				// old accesses (its shadow state is reset as synchronisation events accumulate), so two
+				// workers must touch the same function close together for a race on its state to be seen
+				yield(7)
 				val, _, err := session.Engine().Evaluator().Template(session.MergedEnvironment(), ctx, tpl, nil)
 				es := ""
 				if err != nil {
